@@ -20,7 +20,7 @@ from common import driver
 from props import c26_models as M
 from props import c26_sweep as S
 
-MODELLED = ["LoopTiling2DTrans", "ChunkLoopTrans (as step of tiling)", "LoopSwapTrans (as step of tiling)",
+MODELLED = ["AlgTrans", "LFRicAlgTrans", "OMPTaskTrans", "LoopTiling2DTrans", "ChunkLoopTrans (as step of tiling)", "LoopSwapTrans (as step of tiling)",
             "OMPLoopTrans", "GOceanOMPLoopTrans", "Dynamo0p3OMPLoopTrans", "OMPParallelLoopTrans",
             "Sum2LoopTrans", "Product2LoopTrans", "Maxval2LoopTrans", "Minval2LoopTrans",
             "ArrayAssignment2LoopsTrans"]
@@ -266,6 +266,10 @@ def model_cases(chk, rng, budget_s):
                 first.append(("chunk", sprog, p, None if size is None else {"chunksize": size}))
         if outer:
             first.append(("swap", sprog, p, None))
+    for flags in ([1], [0], [1, 1], [1, 0], [0, 1], [1, 1, 0], [1, 0, 1], [1, 1, 1]):
+        for cname in ("AlgTrans", "LFRicAlgTrans"):
+            first.append(("alg", None, cname, flags, True))
+    first.append(("alg", None, "AlgTrans", [1, 1], False))
     jobs = first + jobs
     for k, j in enumerate(jobs):
         if k >= len(first) and time.time() > t_end:
@@ -273,6 +277,8 @@ def model_cases(chk, rng, budget_s):
         try:
             if j[0] in ("tile", "chunk", "swap"):
                 c = M.case_tiling(j[1], j[2], j[3], j[0])
+            elif j[0] == "alg":
+                c = M.case_alg(j[2], j[3], j[4])
             elif j[0] == "omp":
                 c = M.case_omp(j[1], j[2], j[3], j[4], j[5])
             elif j[0] == "red":
@@ -280,16 +286,17 @@ def model_cases(chk, rng, budget_s):
             else:
                 c = M.case_a2l(j[1], j[2], j[3])
         except Exception as err:  # pylint: disable=broad-except
-            raise common.Infra(f"model case {j[0]} on {j[1].name}: {type(err).__name__}: {err}") from err
+            raise common.Infra(f"model case {j[0]} on {getattr(j[1], 'name', j[2])}: {type(err).__name__}: {err}") from err
         if c is not None:
-            c["kind"], c["program"] = j[0], j[1].spec
+            c["kind"] = j[0]
+            c.setdefault("program", j[1].spec if j[1] is not None else None)
             yield c
 
 
 def attempt_of_case(c):
     """(trans, variant, target, options) of a model case, for replay files"""
     d = c["desc"]
-    if c["kind"] in ("tile", "chunk", "swap"):
+    if c["kind"] in ("tile", "chunk", "swap", "alg"):
         return d[0], "", ["node", d[1]], d[2]
     if c["kind"] == "omp":
         return d[0], d[1], ["node", d[2]], d[3]
